@@ -14,6 +14,7 @@ import (
 	"strings"
 	"time"
 
+	"grol.io/grol/ast"
 	"grol.io/grol/object"
 )
 
@@ -81,13 +82,49 @@ func fnRecords(src string) (recs []fnRec) {
 	// the compact printer omits statement comments by design
 	d0 := canonDump(stripCommentsGo([]any{stripFlags(deepCopy(any(nf)))}).([]any))
 	mk := func(via string) fnRec { return fnRec{Src: src, Via: via, FN: nf, D0: d0} }
+	recs = fnRecordsOn(prog, false, mk, varName, name, nil)
+	// the same definition in a session where a macro is defined: every input of such a session goes through
+	// eval.State.ExpandMacros (ast.Modify) before it is evaluated, so the function value holds a REBUILT tree
+	if plain := recs; len(plain) > 0 {
+		recs = append(recs, fnRecordsOn(prog, true, mk, varName, name, plain)...)
+	}
+	return recs
+}
+
+var fnMacroProg *ast.Statements
+
+// fnRecordsOn evaluates the definition on a fresh state (after defining an unrelated macro when rebuilt is set) and
+// records the Inspect() and SaveGlobals texts. plain = the records of the macro-free session: a text that is
+// byte-identical to the one recorded there reads back the same way, so that part is taken from it.
+func fnRecordsOn(prog *ast.Statements, rebuilt bool, mk func(string) fnRec, varName, name string, plain []fnRec) (recs []fnRec) {
+	suffix := ""
 	s, buf := newState(RunOpt{})
+	if rebuilt {
+		suffix = "-rebuilt"
+		if fnMacroProg == nil {
+			fnMacroProg, _, _ = fmtParse(fmtUnrelatedMacro)
+		}
+		mp := *fnMacroProg
+		mp.Statements = append([]ast.Node{}, fnMacroProg.Statements...) // DefineMacros removes the definition from the list
+		if o := evalProgram(s, buf, &mp, RunOpt{}); o.Panicked || o.Err || s.NumMacros() != 1 {
+			return nil
+		}
+	}
 	o := evalProgram(s, buf, prog, RunOpt{})
 	if o.Panicked || o.Err {
 		return nil // not a function value (e.g. a constant name defined twice): outside this check
 	}
 	cancel := s.SetContext(context.Background(), 5*time.Second)
 	defer cancel()
+	same := func(r *fnRec) bool {
+		for i := range plain {
+			if p := &plain[i]; p.Via+suffix == r.Via && p.Text == r.Text && p.Panic == "" {
+				r.Ok, r.DI, r.Text2, r.Ok2 = p.Ok, p.DI, p.Text2, p.Ok2
+				return true
+			}
+		}
+		return false
+	}
 	back := func(r *fnRec, wantBound string) {
 		p2, ok, _ := fmtParse(r.Text)
 		if !ok || len(p2.Statements) != 1 {
@@ -113,7 +150,7 @@ func fnRecords(src string) (recs []fnRec) {
 		}
 		cancel2 := s2.SetContext(context.Background(), 5*time.Second)
 		defer cancel2()
-		if r.Via == "inspect" {
+		if strings.HasPrefix(r.Via, "inspect") {
 			look, _ := fn2["name"].(string)
 			if look == "" {
 				// the text of an anonymous function is an expression: its value is the function
@@ -139,7 +176,7 @@ func fnRecords(src string) (recs []fnRec) {
 		}
 	}
 	func() {
-		r := mk("inspect")
+		r := mk("inspect" + suffix)
 		defer func() {
 			if e := recover(); e != nil {
 				r.Panic = fmt.Sprint(e)
@@ -152,10 +189,12 @@ func fnRecords(src string) (recs []fnRec) {
 			return
 		}
 		r.Text = v.Inspect()
-		back(&r, "")
+		if !same(&r) {
+			back(&r, "")
+		}
 	}()
 	func() {
-		r := mk("save")
+		r := mk("save" + suffix)
 		defer func() {
 			if e := recover(); e != nil {
 				r.Panic = fmt.Sprint(e)
@@ -177,7 +216,9 @@ func fnRecords(src string) (recs []fnRec) {
 				r.Text = ln
 			}
 		}
-		back(&r, want)
+		if !same(&r) {
+			back(&r, want)
+		}
 	}()
 	return recs
 }
